@@ -187,6 +187,27 @@ Theorem C20_thread_stack_size_spec :
 Proof. exact thread_stack_size_spec. Qed.
 Print Assumptions C20_thread_stack_size_spec.
 
+(* uv__thread_stack_size always yields a size a thread can be created with: >= the minimum,
+   page-aligned, exactly the 2 MiB default whenever the soft RLIMIT_STACK is unlimited, cannot
+   be read or rounds below the minimum, otherwise the limit rounded down to a page; never
+   the unlimited marker or a value derived from it.  (So uv_thread_create / stack_size 0 /
+   the thread pool start under every RLIMIT_STACK; checked on the library by the "tc"/"st"
+   cases of checks/c20.py with a scripted getrlimit.) *)
+Theorem C20_thread_stack_size_accepted :
+  forall page psm rl,
+  0 < page -> psm <= default_stack_size ->
+  let r := thread_stack_size page psm rl in
+  min_stack_size psm <= r /\
+  (rl = RlFail -> r = default_stack_size) /\
+  (rl = RlCur RLIM_INFINITY -> r = default_stack_size) /\
+  (forall cur, rl = RlCur cur -> cur - cur mod page < min_stack_size psm -> r = default_stack_size) /\
+  (forall cur, rl = RlCur cur -> cur <> RLIM_INFINITY -> min_stack_size psm <= cur - cur mod page ->
+     r = cur - cur mod page /\ (0 <= cur -> r <= cur)) /\
+  (forall cur, rl = RlCur cur -> 0 <= cur <= RLIM_INFINITY -> r <= Z.max default_stack_size (RLIM_INFINITY - 1)) /\
+  (default_stack_size mod page = 0 -> r mod page = 0).
+Proof. exact thread_stack_size_accepted. Qed.
+Print Assumptions C20_thread_stack_size_accepted.
+
 (* the old failing input of DESIGN item 16 on the repaired model: SIZE_MAX and 2^64-page+1
    are refused, 2^64-page and 2^64-page-1 round to 2^64-page; the code without the guard
    answered SIZE_MAX with the 16 KiB minimum *)
